@@ -228,9 +228,13 @@ def check_cfg(ctx, fx, cfg):
     _FX[0] = fx
     users = [f for f in fx.d["fns"] if refs_registry(f)]
     roots_ = sorted({f.get("root", f["def"]) for f in users})
-    ctx.floor("R08.1", "registry operations (%s)" % cfg, len(roots_), 1 if cfg == "bare" else 6)
+    ctx.floor("R08.1", "registry operations (%s)" % cfg, len(roots_), 1 if cfg == "bare" else 3)
     for r in roots_:
-        ctx.require(r.startswith("actor::service::"), "R08.1", "registry-user:%s@%s" % (r, cfg), "the service registry is accessed outside the registry operations of actor::service", fn=r, site=fx.fn(r)["loc"] if fx.fn(r) else None)
+        # the registry operations: methods of the Service traits and the service methods of Addr (whichever module the
+        # impl block is written in); every one of them is judged by R08.2 / R08.3 below
+        rf = fx.fn(r) or {}
+        is_op = r.startswith(("actor::service::", "addr::Addr::<A>::")) and rf.get("kind") in ("fn", "assoc_fn")
+        ctx.require(is_op, "R08.1", "registry-user:%s@%s" % (r, cfg), "the service registry is accessed outside the registry operations", fn=r, site=rf.get("loc"))
     if cfg != "bare":
         check_forwarders(ctx, fx, cfg, None)
     # R08.7 "register fails exactly when a live instance is registered" is decided in one place, under the lock: the
@@ -246,7 +250,7 @@ def check_cfg(ctx, fx, cfg):
         ctx.floor("R08.7", "constructions of ServiceStillRunning (%s)" % cfg, len(made), 1)
     for root, fn_, loc in made:
         ctx.require(root in roots_, "R08.7", "still-running-decided-under-lock:%s@%s" % (fn_, cfg), "ServiceStillRunning is reported outside the registry's critical section (an unlocked check-then-act: the answer can be stale, and a terminated entry is not replaced)", fn=fn_, site=loc)
-    REG = "actor::service::<impl addr::Addr<A>>::register"
+    REG = "addr::Addr::<A>::register"
     from props.c04 import check_forward_always
     n_fw = 0
     for g in fx.d["fns"]:
